@@ -87,6 +87,9 @@ def _optrepr(f):
 
 
 CLASS_PRED = {
+    # an indentation of more characters than a str can hold: `' ' * width` raises OverflowError while the text is laid out
+    'opt-huge-indent-width': lambda f: 'OverflowError' in f.get('observed', '')
+    and re.search(r"'indent_width': (HUGEINT|\d{19,})", _optrepr(f)) is not None,
     # int(float('inf')) raises OverflowError; the handlers catch (ValueError, TypeError) only
     'opt-float-inf-overflow': lambda f: 'OverflowError' in f.get('observed', '') and re.search(r'\binf\b', _optrepr(f)) is not None,
     # repr() of an int beyond the interpreter's digit limit raises ValueError while the SQLParseError message is built
